@@ -318,9 +318,11 @@ class Part(object):
         measures = np.array([(m.start.t, m.end.t) for m in self.iter_all(Measure)])
 
         # correct for anacrusis
-        divs_per_beat = self.inv_beat_map(
-            1 + self.beat_map(0)
-        )  # find the divs per beat in the first measure
+        # the divs per beat in the first measure: from the quarter duration and the
+        # time signature in force at its start (the position of the first beat after
+        # the start is in other units when the first measure is shorter than a beat
+        # and the meter changes at the first barline)
+        divs_per_beat = self._divs_per_beat_at_start()
         # whole number of divs: the time maps are floating point interpolators
         # count the beats of a full bar in the unit of the beat maps
         beats_per_measure = self.time_signature_map(0)[2 if self._use_musical_beat else 0]
@@ -350,6 +352,19 @@ class Part(object):
 
         return inter_function
 
+    def _divs_per_beat_at_start(self):
+        # length in divisions of one beat at time 0, as the beat map counts beats
+        # there: a beat of the time signature in force at 0 (notated or musical),
+        # a quarter when no time signature has started yet
+        divs_per_beat = float(self._quarter_map(0))
+        tss = [ts for ts in self.iter_all(TimeSignature) if ts.start.t <= 0]
+        if tss:
+            ts = tss[-1]
+            divs_per_beat *= 4 / ts.beat_type
+            if self._use_musical_beat:
+                divs_per_beat *= ts.beats / ts.musical_beats
+        return divs_per_beat
+
     @property
     def measure_number_map(self):
         """A function mapping timeline times to the measure number of
@@ -376,9 +391,11 @@ class Part(object):
             ]
         )
         # correct for anacrusis
-        divs_per_beat = self.inv_beat_map(
-            1 + self.beat_map(0)
-        )  # find the divs per beat in the first measure
+        # the divs per beat in the first measure: from the quarter duration and the
+        # time signature in force at its start (the position of the first beat after
+        # the start is in other units when the first measure is shorter than a beat
+        # and the meter changes at the first barline)
+        divs_per_beat = self._divs_per_beat_at_start()
         # whole number of divs: the time maps are floating point interpolators
         # count the beats of a full bar in the unit of the beat maps
         beats_per_measure = self.time_signature_map(0)[2 if self._use_musical_beat else 0]
